@@ -40,6 +40,18 @@ Theorem C40_flat_bindings_disjoint : forall R sing nb ths, 1 <= nb <= R -> flat 
 Proof. exact flat_bindings_disjoint. Qed.
 Print Assumptions C40_flat_bindings_disjoint.
 
+(* from the map to cores (parsec.c: parsec_find_core_by_idx, parsec_select_vpmap_thread_core,
+   parsec_apply_vpmap_thread_locations): the indexes of the map are relative to the cpuset the process
+   is allowed to use.  For ANY finite cpuset (holes, non-zero first cpu) and any requested number of
+   cores, the default flat map binds the requested number of threads (all cores when nb <= 0 or too
+   large), each of them to a core of the cpuset *)
+Theorem C40_flat_bindings_inside_cpuset : forall allowed sing nb, allowed <> [] -> Forall (fun c => 0 <= c) allowed ->
+  exists cores, user_flat_bindings allowed sing nb = Some cores /\
+    length cores = Z.to_nat (init_nb (Z.of_nat (length allowed)) nb) /\
+    Forall (fun c => In c allowed) cores.
+Proof. exact flat_bindings_inside_cpuset. Qed.
+Print Assumptions C40_flat_bindings_inside_cpuset.
+
 (* which strings give the flat map: NULL, "flat..." (after an optional
    "display:"), and every string that is none of the documented syntaxes
    (neither flat, hwloc, file: nor a scannable rr:n:p:c) -- malformed
@@ -146,5 +158,7 @@ Example C40_example :
   documented (list_ascii_of_string "no-such-map") = false /\
   vpmap_init None None 5 16 1 =
     Map 1 5 [[mkt 3 0 (Fin [0]); mkt 3 0 (Fin [3]); mkt 3 0 (Fin [6]); mkt 3 0 (Fin [9]); mkt 3 0 (Fin [12])]] /\
-  parse_binding 16 3 (list_ascii_of_string "1;7;2") = BOk [bound 1; bound 3; bound 5].
+  parse_binding 16 3 (list_ascii_of_string "1;7;2") = BOk [bound 1; bound 3; bound 5] /\
+  user_flat_bindings [2; 3; 5] 0 0 = Some [2; 3; 5] /\ user_flat_bindings [0; 1; 2; 3; 4; 6; 7] 0 2 = Some [0; 3] /\
+  user_flat_bindings [0; 1; 2; 3; 4; 6; 7] 1 7 = Some [0; 1; 2; 3; 4; 6; 7].
 Proof. vm_compute. repeat split. Qed.
